@@ -913,14 +913,15 @@ class CSemantics:
 
             expr = expressions.UnaryOperator(op, a, a.typ, False, location)
         elif op == "-":
-            a = self.pointer(a)
+            a = self.promote(self.pointer(a))
             expr = expressions.UnaryOperator(op, a, a.typ, False, location)
         elif op == "~":
             a = self.pointer(a)
             self.ensure_integer(a)
+            a = self.promote(a)
             expr = expressions.UnaryOperator(op, a, a.typ, False, location)
         elif op == "+":
-            expr = self.pointer(a)
+            expr = self.promote(self.pointer(a))
         elif op == "*":
             a = self.pointer(a)
             if not a.typ.is_pointer:
